@@ -243,6 +243,14 @@ def run_side(case, which):
             coro = use(contextlib.asynccontextmanager(program), case, log)
         outcome = run(ctx, coro)
         result = expect_return(outcome, "C13/program")
+        if which == "a":
+            # every suspension of the user's generator is driven by the loop (C17): the library neither answers a
+            # token itself nor lets one go unseen
+            errs = ctx.protocol_errors()
+            unseen = [s_.origin for s_ in ctx.issued if not s_.seen]
+            if errs or unseen:
+                raise Violation("C13/generator-suspension-not-driven-by-the-loop",
+                                f"{describe(case)}: {errs[:2]} unseen={unseen[:2]}")
         close_orphans(ctx)
     return result, log
 
